@@ -48,7 +48,7 @@ PLAN = {"F": "F", "S": "S", "O": "O", "P": "P:300", "R": "R:300", "N": "N", "Pl"
 def connect_program(case):
     L = ["prog net", "nfd 1", "main"]
     plan = " ".join(PLAN[k] for k in case["plan"])
-    L.append("  connect 1 %d %s" % (1000 if case["timeo"] else -1, plan))
+    L.append("  connect 1 %d %s" % ({"none": -1, "short": 1000, "zero": 0}[case["timeo"]], plan))
     if case["cancel"]:
         L += ["  runk"] * (case["cancel"] - 1)
         L.append("  cancel 1")
@@ -142,7 +142,7 @@ def run(c, exe=None):
         progs += [rw_program(x, False, rnd) for x in cases]
         progs += [rw_program(x, True, rnd) for x in (cases if not c.quick else rnd.sample(cases, len(cases) // 4))]
     r, cases = vlib.tlc_emit(SD, "NetConnect", "NetConnect3.cfg", workers=1, timeout=900)
-    c.add_mc("NetConnect (every plan over 8 outcomes of <= 3 addresses, with/without timeout, every cancellation instant)", r)
+    c.add_mc("NetConnect (every plan over 8 outcomes of <= 3 addresses, no / short / zero per-address timeout, every cancellation instant)", r)
     if not cases:
         raise vlib.ToolFailure("NetConnect produced nothing\n" + r.out[-2000:])
     c.cov["enumerated_cases"]["NetConnect"] = len(cases)
